@@ -135,7 +135,7 @@ pub fn check(case: &Case, env: &mut CaseEnv) -> Result<(), Failure> {
         shapes.dedup();
         let mut excluded = false;
         for id in shapes {
-            if env.kf_active(id) && !env.replay {
+            if (id.starts_with("DIALECT-") || env.kf_active(id)) && !env.replay {
                 env.excluded(id);
                 excluded = true;
             }
